@@ -387,7 +387,12 @@ func rulesC20(c *Ctx) {
 		ast.Inspect(fn.Decl.Body, func(n ast.Node) bool {
 			if call, ok := n.(*ast.CallExpr); ok && len(call.Args) >= 2 {
 				if id, ok := unparen(call.Fun).(*ast.Ident); ok && id.Name == "copy" {
-					if se, ok := unparen(call.Args[1]).(*ast.SliceExpr); ok && se.Low == nil && se.High != nil {
+					// the stored part, sliced in place or read into a local first
+					srcE := call.Args[1]
+					if st := p.StateAt(fn, call); st != nil {
+						srcE = p.DefOf(T(srcE, st)).E
+					}
+					if se, ok := unparen(srcE).(*ast.SliceExpr); ok && se.Low == nil && se.High != nil {
 						_, a := p.fieldSel(se.X, es+".events")
 						_, b := p.fieldSel(se.High, es+".idx")
 						if a && b {
